@@ -151,6 +151,22 @@ def scenario_space(tier, seed, kinds=None, funcs=(False, True), cfis=("none",), 
                     yield shape, [("ins", 0, 0, pn, 2)]
                     yield shape, [("ins", sizes[0], 0, pn, 0)]
                     yield shape, [("ins", 0, 0, pn, 0)]
+            # recursion: a call to the function itself put into its own returning block (b2 = "nop; ret") and, for the callee g, a
+            # call to g put into g's own blocks; the call that b1 makes replaced by a call to the same function
+            if "callg" in patches:
+                for off in (0, 1, 2):
+                    yield shape, [("ins", off, 0, "callf", 2)]
+                for off in (0, 1):
+                    # (a call as the very last instruction of a section would return to nowhere: apply() stops with an assertion of
+                    # _cleanup_modified_blocks -- no result, outside the properties; so not behind g's ret when g ends the section)
+                    if off == 0 or c2:
+                        yield shape, [("ins", off, 0, "callg", 3)]
+                    yield shape, [("ins", off, 0, "plain", 3)]
+                if c2:
+                    yield shape, [("ins", 0, 0, "callg", 4)]
+                if kind == "call":
+                    yield shape, [("rep", 1, sizes[1] - 1, "callg", 1)]
+                    yield shape, [("rep", 0, sizes[1], "callg", 1)]
             for pn in ("plain", "callg", "ret"):
                 for first in (("ins", sizes[1], 0, "plain", 1), ("del", 0, 1, None, 1), ("ins", 0, 0, "callg", 0)):
                     yield shape, [first, ("ins", 1, 0, pn, 2)]
